@@ -686,7 +686,7 @@ func genC20(e *emitter, r *rng, thorough bool) {
 		}
 	}
 	// IsValid decision table
-	mimes := []string{"application/json", "base64", "text/plain", "", "application/json; charset=utf-8", "application/jsonl", "Application/JSON", "application/json ", "base64 ", "BASE64"}
+	mimes := []string{"application/json", "base64", "text/plain", "", ";", ";charset=utf-8", " ; q=1", "a;b", "/", " ", "application/json; charset=utf-8", "application/jsonl", "Application/JSON", "application/json ", "base64 ", "BASE64"}
 	nv := 6
 	if thorough {
 		nv = 60
@@ -773,6 +773,15 @@ func genC20(e *emitter, r *rng, thorough bool) {
 			ev("hex.empty", payload, "", "", mime)
 			ev("key.bad", payload, sigHex, "05"+pkHex[2:], mime)
 			ev("sig.bad", payload, "31"+sigHex[2:], pkHex, mime)
+			if i < 2 {
+				// signatures of 254..600 bytes whose length byte is near 255 (or wraps): length arithmetic in a byte
+				for _, total := range []int{254, 255, 256, 257, 258, 300, 600} {
+					for _, lb := range []byte{0xfe, 0xff, 0xfd, 0x00, 0x06} {
+						raw := append([]byte{0x30, lb, 2, 1, 1, 2, 1, 1}, make([]byte, total-8)...)
+						ev("sig.long-lengthbyte", payload, hex.EncodeToString(raw), pkHex, mime)
+					}
+				}
+			}
 			for _, m2 := range mimes {
 				if m2 != mime {
 					ev("alter.mime", payload, sigHex, pkHex, m2)
